@@ -8,9 +8,9 @@
    translation, and (loads in the bar's own axes) turned by any angle, a bar is cut at the same
    positions and carries the same nodal loads (Proofs/UnitsBar.v).  The statement for the solved
    structure is decided per run by the metamorphic oracle of the check, see DESIGN.md. *)
-From Coq Require Import ZArith QArith Qabs Reals List Bool Arith.
+From Coq Require Import ZArith QArith Qabs Reals List Bool Arith Lia.
 From Inkfem Require Import Num.NumOps Gen.GenStiffness Gen.GenLoads Gen.GenRecover Spec.Stiffness
-  Model.Types Model.Slice Model.Loads Spec.Resultant Model.Dof Model.Assemble Proofs.StiffnessQ Proofs.PlacementProofs Proofs.SystemProofs Proofs.UnitsBar Proofs.UnitsStructure Proofs.MovedStructure.
+  Model.Types Model.Slice Model.Loads Spec.Resultant Model.Dof Model.Assemble Proofs.StiffnessQ Proofs.PlacementProofs Proofs.SystemProofs Proofs.UnitsBar Proofs.UnitsStructure Proofs.MovedStructure Proofs.TurnedStructure Spec.Superposition.
 Import ListNotations.
 
 Theorem C07_stiffness_rotation_covariant_R : forall (L c s t1 t2 E A I : R), (L * (t2 - t1) <> 0 ->
@@ -141,3 +141,67 @@ Theorem C07_a_structure_moved_elsewhere_gets_the_same_system : forall (dx dy : Q
   (solves n (prepared_all w bs ds) sup u -> solves n (prepared_all w (moved_all dx dy bs) ds) sup u).
 Proof. exact moved_structure_same_system. Qed.
 Print Assumptions C07_a_structure_moved_elsewhere_gets_the_same_system.
+
+(* the whole structure of the model turned about the origin by the angle of cosine cr and sine sr: loads in the bars' own axes
+   (they turn with the bars), supports that treat dx and dy alike.  kind tells what each equation number stands for (0 dx,
+   1 dy, 2 rz), pr gives the other translation number of the same point.  Row i of the new system is the turned combination
+   of rows i and pr i of the old one in the turned unknowns, so the turned displacements (each (dx, dy) pair rotated,
+   rotations unchanged) solve the new system.  Assumptions as for the unit conversion: no stiffness term of either system
+   under the 1e-10 cut-off, a stiffness term in every free equation. *)
+Theorem C07_turned_displacements_solve_the_turned_structure :
+  forall (cr sr : Q), (cr * cr + sr * sr == 1)%Q -> forall (kind pr : nat -> nat),
+  (forall i, kind i = 0%nat -> kind (pr i) = 1%nat /\ pr (pr i) = i) -> (forall i, kind i = 1%nat -> kind (pr i) = 0%nat /\ pr (pr i) = i) ->
+  forall (n : nat) (bs : list (bar Q)) (ds : list (list dof3)) (sup : list nat) (u : list Q),
+  let S := prepared_all false bs ds in
+  let S' := prepared_all false (map (turned_bar cr sr) bs) ds in
+  Forall (fun b => own_axes_only b = true) bs ->
+  Forall (TurnedStructure.good_slice cr sr kind pr n) (all_slices S) -> Forall (Forall (paired kind pr)) ds ->
+  (forall j, (j < n)%nat -> kind j <> 2%nat -> (pr j < n)%nat /\ is_supported sup (pr j) = is_supported sup j) ->
+  (forall i, (i < n)%nat -> is_supported sup i = false -> row_empty (all_contribs S) i = false /\ row_empty (all_contribs S') i = false) ->
+  solves n S sup u -> solves n S' sup (turn_u cr sr kind pr n u).
+Proof. exact turned_structure. Qed.
+Print Assumptions C07_turned_displacements_solve_the_turned_structure.
+
+(* not vacuous: a cantilever of two finite elements with a transverse unit load in the middle, turned by the 3-4-5 angle *)
+Definition c07_cbar : bar Q := {| b_n1 := 0; b_n2 := 1; b_l1 := rigid; b_l2 := rigid; b_x1 := 0; b_y1 := 0; b_x2 := 2; b_y2 := 0;
+  b_L := 2; b_c := 1; b_s := 0; b_E := 1; b_A := 1; b_I := 1; b_S := 1; b_rho := 0; b_cl := []; b_dl := [] |}.
+Definition c07_nd (t x y : Q) (e : tor Q) : pnode Q := {| pn_t := t; pn_x := x; pn_y := y; pn_ext := e; pn_left := (0, 0, 0); pn_right := (0, 0, 0) |}.
+Definition c07_S : list (pbar Q) :=
+  [ {| pb_bar := c07_cbar; pb_nodes := [c07_nd 0 0 0 (0, 0, 0); c07_nd (1 # 2) 1 0 (0, 1, 0); c07_nd 1 2 0 (0, 0, 0)];
+       pb_dofs := [(0, 1, 2)%nat; (3, 4, 5)%nat; (6, 7, 8)%nat] |} ].
+Definition c07_S' : list (pbar Q) :=
+  [ {| pb_bar := turned_bar (3 # 5) (4 # 5) c07_cbar;
+       pb_nodes := [c07_nd 0 0 0 (0, 0, 0); c07_nd (1 # 2) (3 # 5) (4 # 5) (0, 1, 0); c07_nd 1 (6 # 5) (8 # 5) (0, 0, 0)];
+       pb_dofs := [(0, 1, 2)%nat; (3, 4, 5)%nat; (6, 7, 8)%nat] |} ].
+Definition c07_u : list Q := [0; 0; 0; 0; 1 # 3; 1 # 2; 0; 5 # 6; 1 # 2].
+Definition c07_kind (i : nat) : nat := nth i [0; 1; 2; 0; 1; 2; 0; 1; 2]%nat 2%nat.
+Definition c07_pr (i : nat) : nat := nth i [1; 0; 2; 4; 3; 5; 7; 6; 8]%nat i.
+
+Example C07_turned_structure_hypotheses_satisfiable :
+  (forall i, c07_kind i = 0%nat -> c07_kind (c07_pr i) = 1%nat /\ c07_pr (c07_pr i) = i) /\
+  (forall i, c07_kind i = 1%nat -> c07_kind (c07_pr i) = 0%nat /\ c07_pr (c07_pr i) = i) /\
+  Forall2 (pbar_turned (3 # 5) (4 # 5)) c07_S c07_S' /\
+  Forall (TurnedStructure.good_slice (3 # 5) (4 # 5) c07_kind c07_pr 9) (all_slices c07_S) /\
+  (forall j, (j < 9)%nat -> c07_kind j <> 2%nat -> (c07_pr j < 9)%nat /\ is_supported [0; 1; 2]%nat (c07_pr j) = is_supported [0; 1; 2]%nat j) /\
+  solves 9 c07_S [0; 1; 2]%nat c07_u /\
+  map Qred (turn_u (3 # 5) (4 # 5) c07_kind c07_pr 9 c07_u) = [0; 0; 0; - (4 # 15); 1 # 5; 1 # 2; - (2 # 3); 1 # 2; 1 # 2].
+Proof.
+  split. { intros i. do 9 (destruct i as [|i]; [vm_compute; intros; try discriminate; split; reflexivity|]). destruct i; vm_compute; intros H; discriminate H. }
+  split. { intros i. do 9 (destruct i as [|i]; [vm_compute; intros; try discriminate; split; reflexivity|]). destruct i; vm_compute; intros H; discriminate H. }
+  split.
+  { constructor; [| constructor]. unfold pbar_turned. split; [reflexivity|]. split; [reflexivity|].
+    repeat constructor; vm_compute; reflexivity. }
+  split.
+  { apply Forall_forall. intros sl Hin. vm_compute in Hin.
+    destruct Hin as [<- | [<- | []]];
+      (split; [apply no_tiny_b_sound; vm_compute; reflexivity|]);
+      (split; [apply no_tiny_b_sound; vm_compute; reflexivity|]);
+      (split; [vm_compute; discriminate|]);
+      (split; [repeat split; reflexivity|]);
+      (split; [repeat split; reflexivity|]);
+      repeat constructor. }
+  split.
+  { intros j Hj. do 9 (destruct j as [|j]; [vm_compute; intros; split; [lia || reflexivity | reflexivity]|]). exfalso; lia. }
+  split; [| vm_compute; reflexivity].
+  intros i Hi. do 9 (destruct i as [|i]; [vm_compute; reflexivity|]). exfalso; lia.
+Qed.
